@@ -16,6 +16,9 @@ namespace RlModel
 structure Table where
   types : List Ty
   chunks : List Chunk
+  /-- `false`: the scan order of the table is not known to the model (on-disk engine: row-sets are
+  visited in snapshot order) — order-dependent aggregates above it are then not predicted. -/
+  ordered : Bool := true
   deriving Inhabited
 
 structure POut where
@@ -296,7 +299,8 @@ def runPlan (tables : List Table) (spec : Bool) : Nat → Sexp → Except String
           let cs := listArgs cols
           let idx := cs.map (fun c => match c with | .atom a => (colIdOf a).getD 0 | _ => 0)
           .ok { schema := cs, types := idx.map (fun i => tb.types.getD i .null),
-                chunks := tb.chunks.map (fun c => c.map (fun r => idx.map (fun i => r.getD i .null))) }
+                chunks := tb.chunks.map (fun c => c.map (fun r => idx.map (fun i => r.getD i .null))),
+                orderKnown := tb.ordered }
     | .list [.atom "proj", es, c] =>
       match runPlan tables spec fuel c with
       | .error e => .error e
